@@ -328,8 +328,7 @@ class Runner:
             self.log("ret", 0, int(out))
         elif t == "cond":
             i = iv[0] if iv else 0
-            val = {0: False, 1: True, 2: i % 2 == 0, 3: i > 0}
-            preds = [val[c] for c in s["n"]]
+            preds = [pred_value(c, i, (sum(p) + self.flav) // 2 + j) for j, c in enumerate(s["n"])]
             fns = [(lambda j=j: self.block(s["c"][j], p + [j + 1], iv)) for j in range(len(s["c"]))]
             has_else = len(s["c"]) > len(preds)
             if (sum(p) + self.flav) % 2 == 0:
@@ -436,6 +435,51 @@ def replay(prog, flav, variants):
         return n
     k = max(range(len(variants)), key=lambda i: agree(variants[i]))
     return got, k, diffs[k]
+
+
+# ---------------------------------------------------------------------- classical predicates of cond
+NUM_PRED_CODES = tuple(range(4, 15))
+
+
+def pred_value(code, i, rep=0):
+    """The Python object handed to qp.cond for a predicate code of QProg.tla at loop value i.  Codes 0-3 are bools; codes
+    >= 4 are numbers (the objects `if n % 3:` / `elif count:` would test), as Python or as numpy scalars by `rep`."""
+    if code <= 3:
+        return {0: False, 1: True, 2: i % 2 == 0, 3: i > 0}[code]
+    v = {4: i % 3, 5: i, 6: -1, 7: 3, 8: 0, 9: 0.5, 10: -1.0, 11: 0.0, 12: 2.0, 13: 2 - i, 14: i / 2}[code]
+    if rep % 3 == 2:
+        import numpy as np
+        return np.float64(v) if isinstance(v, float) else np.int64(v)
+    return v
+
+
+def widen_preds(prog, rng, p=0.5):
+    """Re-draw (in place, seeded) the predicates of some cond nodes of a generated program among the number-valued codes."""
+    for s in prog:
+        if s["t"] == "cond" and rng.random() < p:
+            s["n"] = [rng.choice(NUM_PRED_CODES) if rng.random() < 0.8 else c for c in s["n"]]
+        for b in s["c"]:
+            widen_preds(b, rng, p)
+    return prog
+
+
+def nonbool_cond_stats(prog, iv=()):
+    """(number of cond nodes with a number-valued predicate, number of those whose STATIC predicate tuple at loop value 0
+    separates 'first truthy' from 'largest' / 'last truthy') - only a vacuity count, not an oracle."""
+    n = d = 0
+    for s in prog:
+        if s["t"] == "cond" and any(c >= 4 for c in s["n"]):
+            n += 1
+            for i in range(-3, 4):
+                vals = [pred_value(c, i) for c in s["n"]]
+                truthy = [j for j, v in enumerate(vals) if v]
+                if truthy and (max(range(len(vals)), key=lambda j: (vals[j], -j)) != truthy[0]):
+                    d += 1
+                    break
+        for b in s["c"]:
+            a, b2 = nonbool_cond_stats(b)
+            n, d = n + a, d + b2
+    return n, d
 
 
 # ---------------------------------------------------------------------- random programs (seeded)
